@@ -36,8 +36,8 @@ func vFanTemplates(proj map[string]interface{}) []*vEntry {
 			nicks = append(nicks, n)
 		}
 	}
-	if len(nicks) > 5 {
-		nicks = nicks[:5]
+	if len(nicks) > 8 {
+		nicks = nicks[:8]
 	}
 	add := func(sess int64, line string) {
 		res = append(res, &vEntry{T: "line", Sess: sess, Data: line, Sup: true, Conf: true})
@@ -54,7 +54,7 @@ func vFanTemplates(proj map[string]interface{}) []*vEntry {
 			for _, p := range v.sess {
 				if p["rid"].(int) != 0 && p["id"].(int64) == id && !p["del"].(bool) {
 					pfxs = append(pfxs, p["nick"].(string))
-					if len(pfxs) == 3 {
+					if len(pfxs) == 8 {
 						break
 					}
 				}
@@ -111,6 +111,20 @@ func vFanTemplates(proj map[string]interface{}) []*vEntry {
 				"MODE %s +x", "NAMES %s", "WHO %s", "PRIVMSG %s :hi", "NOTICE %s :hi", "KNOCK %s", "LIST %s", "JOIN %s k1", "JOIN %s k2"} {
 				add(id, fmt.Sprintf(f, c))
 			}
+			// existing ban masks in another spelling (equal under IRC case mapping, different bytes)
+			if cc, ok := v.chans[strings.ToLower(c)]; ok {
+				if bans, ok := cc["bans"].([]interface{}); ok {
+					seen := map[string]bool{}
+					for _, bb := range bans {
+						m := bb.(map[string]interface{})["m"].(string)
+						if !seen[m] && len(seen) < 2 {
+							seen[m] = true
+							add(id, fmt.Sprintf("MODE %s +b %s", c, up(m)))
+							add(id, fmt.Sprintf("MODE %s -b %s", c, up(m)))
+						}
+					}
+				}
+			}
 			add(id, "JOIN "+up(c))
 			add(id, "PART "+up(c))
 			add(id, "JOIN #fresh,"+c)
@@ -142,6 +156,9 @@ func vMutating(e *vEntry) bool {
 		return true
 	}
 	d := strings.ToUpper(e.Data)
+	if f := strings.Fields(d); len(f) >= 3 && (f[0] == "MODE" || (len(f) >= 4 && f[1] == "MODE")) {
+		return true // a mode change (not a query)
+	}
 	for _, w := range []string{"NICK ", "JOIN ", "PART ", "KICK ", "QUIT", "KILL ", "GLINE ", "SVSNICK ", "SVSJOIN ", "SVSPART ", "SERVER "} {
 		if strings.Contains(d, w) {
 			return true
@@ -187,6 +204,7 @@ func vBattery(proj map[string]interface{}) []*vEntry {
 		add("WHO " + c)
 		add("TOPIC " + c)
 		add("MODE " + c)
+		add("MODE " + c + " +b")
 	}
 	add("LIST")
 	return res
